@@ -28,6 +28,8 @@ var (
 	verifCrashN    int64
 	verifCrashHits int64
 	verifProcessed sync.Map // *table -> *int64
+	verifSent      sync.Map // *table -> *int64 (row store inserts handed over)
+	verifApplied   sync.Map // *table -> *int64 (row store inserts applied to the memstore)
 	verifLogFile   *os.File
 )
 
@@ -86,6 +88,33 @@ func verifCountProcessed(t *table) {
 	atomic.AddInt64(c.(*int64), 1)
 }
 
+func verifCountSent(t *table) {
+	c, _ := verifSent.LoadOrStore(t, new(int64))
+	atomic.AddInt64(c.(*int64), 1)
+}
+
+func verifCountApplied(t *table) {
+	c, _ := verifApplied.LoadOrStore(t, new(int64))
+	atomic.AddInt64(c.(*int64), 1)
+}
+
+// VerifAllApplied reports whether every insert handed to the named table's row store
+// has been applied to its memstore.
+func (db *DB) VerifAllApplied(table string) bool {
+	t := db.getTable(table)
+	if t == nil {
+		return true
+	}
+	var sent, applied int64
+	if c, ok := verifSent.Load(t); ok {
+		sent = atomic.LoadInt64(c.(*int64))
+	}
+	if c, ok := verifApplied.Load(t); ok {
+		applied = atomic.LoadInt64(c.(*int64))
+	}
+	return applied >= sent
+}
+
 // VerifProcessed returns how many WAL entries the named table of this DB has
 // processed (inserted or skipped) since it was created in this process.
 func (db *DB) VerifProcessed(table string) int64 {
@@ -105,6 +134,8 @@ func (db *DB) VerifForget() {
 	db.tablesMutex.RLock()
 	for _, t := range db.tables {
 		verifProcessed.Delete(t)
+		verifSent.Delete(t)
+		verifApplied.Delete(t)
 	}
 	db.tablesMutex.RUnlock()
 }
